@@ -10,7 +10,7 @@ from harness import behave, core, tlc
 from harness.terms import canon, terms_equal, wire_match
 
 DATES = [["str", "%04d-02-28" % y] for y in (2019, 2020, 2021, 2022, 2023, 2024, 2025)]
-TABLE = [(["date", "int", "str"], DATES + [["int", 5], ["str", "t"]]), (["bytes"], [["str", "AQL/\n"]])]
+TABLE = [(["date", "int", "str"], DATES + [["int", 5], ["str", "t"]]), (["bytes"], [["str", "AQL/\n"], ["str", "Cf8=\n"]])]
 
 
 def _tables(wd, rep, **kw):
